@@ -130,7 +130,9 @@ CLAIMED["C14"] = dict(
          "is injective any two solvers return the same step. Abstract layer: the same for every linear H0, J, J^T, and conversely; "
          "one step is exact when the residual is affine along it; Simplified/Full/ActiveSet variants take the same first step. "
          "The assembled systems (matrix, rhs, post-processing, clipping, when each Newton variant refreshes what) are tied to the "
-         "code at the linear-solver interface by exact correspondence. 'Up to the linear solver's tolerance' is C17.",
+         "code at the linear-solver interface by exact correspondence. The Globalized variant hands the step solvers the Full "
+         "variant's system and, when the full step is accepted at once, the Full variant's point (LineSearch.v, unit gnewton). "
+         "'Up to the linear solver's tolerance' is C17.",
     note=BASE_NOTE,
     technique="Coq proof (list-level block elimination / permutation / reduction lemmas, field algebra over Q) + vm_compute "
               "differential correspondence of the assembled systems with a scripted linear solver",
